@@ -474,7 +474,6 @@ func specPktsOK(ps []*packet.Packet) bool {
 //@   modifies nothing
 //@   loop 1 (i int, pmtByteBuffer *bytes.Buffer)
 //@     invariant 0 <= i && i <= len(packets) && specPktsOK(packets) && specSamePkts(packets, old(verifSnapPtrs(packets)))
-//@     invariant forall k in 0..i :: (packets[k][3]/16)%2 == 1
 //@     invariant pmtByteBuffer != nil && verifBufOK(pmtByteBuffer) && fresh(pmtByteBuffer)
 //@     invariant cap(pmtByteBuffer.Bytes()) == 0 || fresh(pmtByteBuffer.Bytes())
 //@     decreases len(packets) - i
